@@ -122,6 +122,8 @@ def parse_log(path):
         if not mc:
             raise vlib.Infra('strace: cannot parse line: ' + raw[:300])
         name, args, ret, tail = mc.group(1), split_args(mc.group(2)), mc.group(3), mc.group(4)
+        if re.match(r'^\s*\(errno \d+\)', tail):
+            ret = '?'           # registers of a dying thread: the call was in progress when the process was killed
         calls.append(dict(pid=pid, name=name, args=args, ret=None if ret == '?' else int(ret), ord=o,
                           injected='INJECTED' in tail))
     pend = [dict(pid=p, name=t.split('(', 1)[0], args=split_args(t.split('(', 1)[1]) if '(' in t else [], ord=entry_ord.get(p, 0))
@@ -391,11 +393,12 @@ class Runner:
                 kills.add((m.group(1), int(m.group(2))))
         fuzzy = any(p['name'] in Conv.MUT for p in pend) or \
             any(c['ret'] is None and c['name'] in Conv.MUT and (c['name'], c['ord']) not in kills for c in calls)
+        rawlog = open(log, errors='replace').read() if os.environ.get('VERIF_DEBUG') else ''
         os.remove(log)
         if not os.environ.get('VERIF_KEEP'):
             shutil.rmtree(root, ignore_errors=True)
         return dict(events=events, marks=marks, killed=killed, fuzzy=fuzzy, final=final, rc=r.returncode,
-                    lib=self.libcache[key], stderr=r.stderr[-300:].decode('latin1'))
+                    lib=self.libcache[key], stderr=r.stderr[-300:].decode('latin1'), rawlog=rawlog)
 
 
 def trace_of(run_id, sc, res):
@@ -598,30 +601,39 @@ def run(ctx):
         runs.append((rid, trace_of(rid, S[j[0]]['sc'], res)))
         meta[rid] = j
         RUN_META[rid] = '%s %s inject=%s killed=%s fuzzy=%s rc=%s' % (S[j[0]]['name'], S[j[0]]['sc']['argv'], j[1], res['killed'], res['fuzzy'], res['rc'])
+        if os.environ.get('VERIF_DEBUG'):
+            os.makedirs('/tmp/c20-debug', exist_ok=True)
+            open('/tmp/c20-debug/%s.strace' % rid, 'w').write(res['rawlog'])
         if res['killed']:
             kills_done += 1
             kill_points.add((j[0], len(res['events'])))
     rejected, nlines = validate(ctx, runs, 'main')
-    # every rejected run is repeated alone (up to 3 times: parallel workers are scheduled differently each time)
+    # every rejected run is repeated in a fresh process (up to 3 times: parallel workers are scheduled differently each time)
     reproduced = 0
-    for rid in sorted(rejected):
-        i, inject, kind = meta[rid]
-        sc = S[i]['sc']
-        again = None
-        for attempt in range(3):
-            res = runner.run(sc, inject)
-            rj, _ = validate(ctx, [('again', trace_of('again', sc, res))], 'again-%s-%d' % (rid, attempt))
-            if rj:
-                again = (res, rj['again'])
-                break
-        if again is None:
-            raise vlib.Infra('rejection of run %s (%s %s) did not reproduce: %s' % (rid, S[i]['name'], inject, rejected[rid]))
-        reproduced += 1
-        res, whys = again
-        desc = '%s%s  => status %d, on disk {%s}  REJECTED: %s' % (
-            c19.describe(sc), (' under strace inject=' + ','.join(inject)) if inject else '', res['rc'],
-            ', '.join(c19.b2s(e['p']) for e in res['final'] if e['k'] != 'd'), '; '.join(whys))
-        ctx.report(ident(sc, inject), desc, replay_obj=dict(scenario=sc, inject=list(inject)))
+    todo = sorted(rejected)[:60]
+    for attempt in range(3):
+        if not todo:
+            break
+        with ThreadPoolExecutor(max_workers=min(8, vlib.JOBS)) as ex:
+            again = list(ex.map(lambda rid: runner.run(S[meta[rid][0]]['sc'], meta[rid][1]), todo))
+        rj, _ = validate(ctx, [(rid, trace_of(rid, S[meta[rid][0]]['sc'], res)) for rid, res in zip(todo, again)], 'again%d' % attempt)
+        left = []
+        for rid, res in zip(todo, again):
+            if rid not in rj:
+                left.append(rid)
+                continue
+            reproduced += 1
+            i, inject, kind = meta[rid]
+            sc = S[i]['sc']
+            desc = '%s%s  => status %d, on disk {%s}  REJECTED: %s' % (
+                c19.describe(sc), (' under strace inject=' + ','.join(inject)) if inject else '', res['rc'],
+                ', '.join(c19.b2s(e['p']) for e in res['final'] if e['k'] != 'd'), '; '.join(rj[rid]))
+            ctx.report(ident(sc, inject), desc, replay_obj=dict(scenario=sc, inject=list(inject)))
+        todo = left
+    if todo:
+        rid = todo[0]
+        raise vlib.Infra('%d rejected run(s) did not reproduce, e.g. %s (%s %s): %s' % (
+            len(todo), rid, S[meta[rid][0]]['name'], meta[rid][1], rejected[rid]))
     nstates = sum(len(l) for _, l in runs)
     shapes = sorted(set(s['name'] for s in S))
     ctx.coverage.update(dict(
